@@ -48,8 +48,7 @@ def from_callback_(
 
                 observer.on_completed()
 
-            arguments.append(handler)
-            func(*arguments)
+            func(*arguments, handler)
             return Disposable()
 
         return Observable(subscribe)
